@@ -17,8 +17,8 @@
 
    Input = parsed rows: what parse_sheet yields (one dict per non-empty row; a cell is empty, a string or a number).
    Header recognition and cell reading (openpyxl / xlrd) are exercised by the harness, not modelled.
-   Numbers are exact rationals.  Not modelled: 'State'/'Country' columns (never used), the Roadms sheet's per-degree
-   impairment columns, region filtering, cells of the wrong kind (a number where a name is expected ...).
+   Numbers are exact rationals.  Not modelled: 'State'/'Country' columns (never used),
+   cells of the wrong kind, region filtering (a number where a name is expected ...).
 
    uids are built symbolically (`uid`) and turned into the byte strings of the f-strings by `render`; convert.py never
    compares uids, only city names, so this is the same computation.  Every place where Python raises is an Err. *)
@@ -127,8 +127,12 @@ Definition mk_amp (r : amp_row) : amp :=
 Definition mk_eqpt (r : eqpt_row) : eqpt :=
   mkEqpt (er_from r) (er_to r) (mk_amp (er_east r)) (mk_amp (er_west r)).
 
+(* a cell whose kind matters: empty, text or number *)
+Inductive cell := CEmpty | CStr (s : string) | CNum (q : Q).
 Record roadm_row := mkRoadmRow {
-  rr_from : string; rr_to : string; rr_target : option Q; rr_variety : option string }.
+  rr_from : string; rr_to : string; rr_target : option Q; rr_variety : option string;
+  rr_from_deg : option string;       (* 'from degrees': names separated by ' | ' *)
+  rr_imp : cell }.                   (* 'from degree to degree impairment id': a number or ids separated by ' | ' *)
 
 Record rows := mkRows {
   w_nodes : list node_row; w_links : list link_row; w_eqpts : list eqpt_row; w_roadms : list roadm_row }.
@@ -169,6 +173,7 @@ Record oper := mkOper { op_gain : option Q; op_dp : option Q; op_tilt : option Q
 Inductive content :=
 | CTrx
 | CRoadm (variety : option string) (restr : option (list string * list string)) (pdeg : option (list (uid * Q)))
+         (pimp : option (list (uid * uid * Z)))             (* per_degree_impairments: from_degree, to_degree, id *)
 | CFused (loss0 : bool)                                    (* params {'loss': 0} present? *)
 | CFiber (variety : string) (length_km loss_coef : Q) (con_in con_out : option Q) (pmd2 : option Q)
                                                            (* pmd2 = pmd_coef squared, exact *)
@@ -241,11 +246,65 @@ Definition per_degree (c : string) (rs : list roadm_row) : list (uid * Q) :=
   flat_map (fun r => match rr_target r with Some t => [(UEdfaTo East c (rr_to r), t)] | None => [] end) rs.
 Definition last_variety (rs : list roadm_row) : option string :=
   fold_left (fun acc r => match ostr_o (rr_variety r) with Some v => Some v | None => acc end) rs None.
-Definition roadm_el (rs : list roadm_row) (n : node) : element :=
+(* int(str): optional blanks, optional sign, decimal digits *)
+Definition is_digit (c : ascii) : bool := let n := nat_of_ascii c in (Nat.leb 48 n && Nat.leb n 57)%bool.
+Fixpoint digits_val (s : string) (acc : Z) : option Z :=
+  match s with
+  | EmptyString => Some acc
+  | String c t => if is_digit c then digits_val t (10 * acc + Z.of_nat (nat_of_ascii c - 48)) else None
+  end.
+Fixpoint lstrip (s : string) : string :=
+  match s with String c t => if Ascii.eqb c " " then lstrip t else s | EmptyString => s end.
+Fixpoint rev_s (s : string) (acc : string) : string :=
+  match s with EmptyString => acc | String c t => rev_s t (String c acc) end.
+Definition strip (s : string) : string := rev_s (lstrip (rev_s (lstrip s) "")) "".
+Definition parse_int (s : string) : option Z :=
+  match strip s with
+  | EmptyString => None
+  | String c t =>
+      if Ascii.eqb c "-" then match t with EmptyString => None | _ => option_map Z.opp (digits_val t 0) end
+      else if Ascii.eqb c "+" then match t with EmptyString => None | _ => digits_val t 0 end
+      else digits_val (String c t) 0
+  end.
+Fixpoint mapM {A B} (f : A -> res B) (l : list A) : res (list B) :=
+  match l with
+  | [] => Ok []
+  | x :: t => let* y := f x in let* r := mapM f t in Ok (y :: r)
+  end.
+(* transform_data: a float gives one id, a string a list of ids; None = nothing to transform *)
+Definition transform_data (c : cell) : res (option (list Z)) :=
+  match c with
+  | CEmpty => Ok None
+  | CNum q => Ok (Some [qtrunc q])
+  | CStr s => if seqb s "" then Ok None
+              else let* ids := mapM (fun x => match parse_int x with Some z => Ok z | None => Err "ValueError:impairment_id" end)
+                                    (split bar s) in Ok (Some ids)
+  end.
+(* the per-degree impairments one Roadms row contributes to the ROADM of its Node A: None = the row has not both cells *)
+Definition row_impairments (c : string) (r : roadm_row) : res (option (list (uid * uid * Z))) :=
+  match ostr_o (rr_from_deg r) with
+  | None => Ok None
+  | Some fd =>
+      let* ids := transform_data (rr_imp r) in
+      match ids with
+      | None => Ok None
+      | Some ids =>
+          let fds := split bar fd in
+          if Nat.eqb (length fds) (length ids)
+          then Ok (Some (map (fun p => (UEdfaTo West c (fst p), UEdfaTo East c (rr_to r), snd p)) (combine fds ids)))
+          else Err "NetworkTopologyError:impairment_mismatch"
+      end
+  end.
+Definition cat_options {A} (l : list (option (list A))) : option (list A) :=
+  if existsb (fun o => match o with Some _ => true | None => false end) l
+  then Some (flat_map (fun o => match o with Some x => x | None => [] end) l) else None.
+Definition roadm_el (rs : list roadm_row) (n : node) : res element :=
   let mine := roadms_of (n_city n) rs in
-  mkEl (URoadm (n_city n)) (node_loc n)
-       (CRoadm (last_variety mine) (restrictions n)
-               (match mine with [] => None | _ => Some (per_degree (n_city n) mine) end)).
+  let* imps := mapM (row_impairments (n_city n)) mine in
+  Ok (mkEl (URoadm (n_city n)) (node_loc n)
+           (CRoadm (last_variety mine) (restrictions n)
+                   (match mine with [] => None | _ => Some (per_degree (n_city n) mine) end)
+                   (cat_options imps))).
 Definition fused_el (d : dir) (n : node) : element := mkEl (UFused d (n_city n)) (node_loc n) (CFused false).
 
 Definition midpoint (a b : node) : loc :=
@@ -297,12 +356,6 @@ Definition eqpt_el (ns : list node) (d : dir) (e : eqpt) : res element :=
   let* a := lookup_node (e_from e) ns in
   Ok (mkEl (UEdfaTo d (e_from e) (e_to e)) (node_loc a)
            (amp_content (match d with East => e_east e | West => e_west e end))).
-
-Fixpoint mapM {A B} (f : A -> res B) (l : list A) : res (list B) :=
-  match l with
-  | [] => Ok []
-  | x :: t => let* y := f x in let* r := mapM f t in Ok (y :: r)
-  end.
 
 (* ---------- connection builders ---------- *)
 Definition other_city (c : string) (l : link) : string := if seqb (l_from l) c then l_to l else l_from l.
@@ -365,13 +418,14 @@ Definition build (ns : list node) (ls : list link) (es : list eqpt) (rs : list r
   let roadms := filter (is_t TRoadm) ns in
   let fused := filter (is_t TFused) ns in
   let ilas := filter (fun n => is_t TIla n && negb (has_eqpt (n_city n) es)) ns in
+  let* re := mapM (roadm_el rs) roadms in
   let* ef := mapM (fiber_el ns East) ls in
   let* wf := mapM (fiber_el ns West) ls in
   let* ee := mapM (eqpt_el ns East) es in
   let* we := mapM (eqpt_el ns West) es in
   let* cx := mapM (fun n => eqpt_connection_by_city (n_city n) ns ls es) ns in
   Ok (mkNet
-        (map trx_el roadms ++ map (roadm_el rs) roadms ++ map (fused_el West) fused ++ map (fused_el East) fused
+        (map trx_el roadms ++ re ++ map (fused_el West) fused ++ map (fused_el East) fused
          ++ ef ++ wf ++ map (auto_edfa_el West) ilas ++ map (auto_edfa_el East) ilas ++ ee ++ we)
         (concat cx ++
          flat_map (fun n => [(UTrx (n_city n), URoadm (n_city n)); (URoadm (n_city n), UTrx (n_city n))]) roadms)).
@@ -385,7 +439,6 @@ Definition convert (w : rows) : res net :=
   build ns' ls es (w_roadms w).
 
 (* ================================================================== service sheet ===== *)
-Inductive cell := CEmpty | CStr (s : string) | CNum (q : Q).
 (* clean_kwargs + default None/'' + correct_cell_int_to_str *)
 Definition id_str (c : cell) : option string :=
   match c with
@@ -445,21 +498,169 @@ Definition route_objects (r : request) : list (Z * string) :=
 Definition pathsync (r : request) : option (option string * list (option string)) :=
   match r_disj r with [] => None | d => Some (r_id r, r_id r :: map Some d) end.
 
-(* correct_xls_route_list for one request, for route entries of these classes (the harness generates only these in
-   the stream compared with the model; ILA / FUSED city names, whose direction is resolved by walking the network
-   graph, are judged by the oracle only):
-     exact uid of a ROADM of the network      kept
-     city declared ROADM in the Nodes sheet   replaced by 'roadm <city>'
-     uid of a transceiver or of a fibre       LOOSE: dropped, STRICT: ServiceError
-     a name known nowhere                     LOOSE: dropped, STRICT: ServiceError
-   `declared` = cities whose Type cell is exactly ROADM (corresp_names re-parses the sheet, so the ILA->ROADM
-   correction of sanity_check is not seen there); `roadm_uids`, `trxfiber` = rendered uids of the network. *)
-Inductive nclass := NExact | NCity | NTrxFiber | NUnknown.
-Definition classify (declared roadm_uids trxfiber : list string) (n : string) : nclass :=
-  if smem n trxfiber then NTrxFiber
-  else if smem n roadm_uids then NExact
-  else if smem n declared then NCity
-  else NUnknown.
+(* ---------- name correction: corresp_names, corresp_next_node, find_node_sugestion, correct_xls_route_list ----------
+   on the network converted from the same workbook (before auto-design; the 'Edfa_preamp_roadm ...' names of
+   auto-design do not exist yet).  Everything works on rendered uids (strings): convert.py matches by substring. *)
+Inductive ekind := KTrx | KRoadm | KFused | KFiber | KEdfa.
+Definition ekind_eqb (a b : ekind) : bool :=
+  match a, b with KTrx, KTrx | KRoadm, KRoadm | KFused, KFused | KFiber, KFiber | KEdfa, KEdfa => true | _, _ => false end.
+Definition kind_of (c : content) : ekind :=
+  match c with
+  | CTrx => KTrx | CRoadm _ _ _ _ => KRoadm | CFused _ => KFused | CFiber _ _ _ _ _ _ => KFiber
+  | CEdfaAuto | CEdfa _ _ => KEdfa
+  end.
+Record graph := mkGraph { g_nodes : list (string * ekind); g_edges : list (string * string) }.
+Definition graph_of (n : net) : graph :=
+  mkGraph (map (fun e => (render (el_uid e), kind_of (el_c e))) (elements n))
+          (map (fun c => (render (fst c), render (snd c))) (connections n)).
+Definition uids_of_kind (k : ekind) (g : graph) : list string :=
+  map fst (filter (fun p => ekind_eqb (snd p) k) (g_nodes g)).
+(* `sub in s` *)
+Fixpoint contains (sub s : string) : bool :=
+  String.prefix sub s || match s with String _ t => contains sub t | EmptyString => false end.
+Definition first_containing (sub : string) (g : graph) : option string :=
+  option_map fst (find (fun p => contains sub (fst p)) (g_nodes g)).
+Definition kind_at (g : graph) (u : string) : option ekind :=
+  option_map snd (find (fun p => seqb (fst p) u) (g_nodes g)).
+(* next(network.successors(u)) *)
+Definition succ1 (g : graph) (u : string) : option string :=
+  option_map snd (find (fun e => seqb (fst e) u) (g_edges g)).
+(* while isinstance(next_nd, (Fiber, Fused)): next_nd = next(successors(next_nd)) ; fuel = number of nodes *)
+Fixpoint skip_line (fuel : nat) (g : graph) (u : string) : res string :=
+  match kind_at g u with
+  | Some KFiber | Some KFused =>
+      match fuel with
+      | O => Err "Loop:fibres_and_fused_only"
+      | S f => match succ1 g u with Some v => skip_line f g v | None => Err "StopIteration:successors" end
+      end
+  | _ => Ok u
+  end.
+
+(* insertion-ordered dict: key -> list *)
+Definition al : Type := list (string * list string).
+Fixpoint al_get (k : string) (l : al) : option (list string) :=
+  match l with [] => None | (k', v) :: t => if seqb k' k then Some v else al_get k t end.
+Fixpoint al_extend (k : string) (vs : list string) (l : al) : al :=       (* d[k].extend(vs) on a defaultdict(list) *)
+  match l with
+  | [] => [(k, vs)]
+  | (k', v) :: t => if seqb k' k then (k', v ++ vs) :: t else (k', v) :: al_extend k vs t
+  end.
+Fixpoint al_extend_if (k : string) (vs : list string) (l : al) : al :=    (* d.get(k, []).extend(vs) *)
+  match l with
+  | [] => []
+  | (k', v) :: t => if seqb k' k then (k', v ++ vs) :: t else (k', v) :: al_extend_if k vs t
+  end.
+Fixpoint al_set (k : string) (vs : list string) (l : al) : al :=
+  match l with
+  | [] => [(k, vs)]
+  | (k', v) :: t => if seqb k' k then (k', vs) :: t else (k', v) :: al_set k vs t
+  end.
+
+Definition edfa_to_name (d : dir) (e : eqpt) : string := render (UEdfaTo d (e_from e) (e_to e)).
+Definition corresp_roadm (w : rows) : al :=
+  map (fun r => (nr_city r, [render (URoadm (nr_city r))]))
+      (filter (fun r => ntype_eqb (norm_type (nr_type r)) TRoadm) (w_nodes w)).
+Definition corresp_fused (w : rows) (g : graph) : al :=
+  let fused := uids_of_kind KFused g in
+  let base := map (fun r => (nr_city r, [render (UFused West (nr_city r)); render (UFused East (nr_city r))]))
+                  (filter (fun r => ntype_eqb (norm_type (nr_type r)) TFused &&
+                                    smem (render (UFused West (nr_city r))) fused &&
+                                    smem (render (UFused East (nr_city r))) fused) (w_nodes w)) in
+  fold_left (fun acc e =>
+               let acc1 := if is_fused_type (a_type (e_east e)) && smem (edfa_to_name East e) fused
+                           then al_extend_if (e_from e) [edfa_to_name East e] acc else acc in
+               if is_fused_type (a_type (e_west e)) && smem (edfa_to_name West e) fused
+               then al_extend_if (e_from e) [edfa_to_name West e] acc1 else acc1)
+            (map mk_eqpt (w_eqpts w)) base.
+Definition corresp_ila (w : rows) (g : graph) (cfused : al) : al :=
+  let ila := uids_of_kind KEdfa g in
+  let c1 := fold_left (fun acc e =>
+                         fold_left (fun a nm => if smem nm ila then al_extend (e_from e) [nm] a else a)
+                                   [edfa_to_name East e; edfa_to_name West e] acc)
+                      (map mk_eqpt (w_eqpts w)) [] in
+  let c2 := fold_left (fun acc r =>
+                         fold_left (fun a nm => if smem nm ila then al_extend (nr_city r) [nm] a else a)
+                                   [render (UEdfa East (nr_city r)); render (UEdfa West (nr_city r))] acc)
+                      (w_nodes w) c1 in
+  fold_left (fun acc kv => al_extend (fst kv) (snd kv) acc) cfused c2.
+
+(* corresp_next_node: for every name, the actual uid (first node whose uid contains it) and the sheet name of
+   the next ROADM / amplifier site downstream *)
+Definition next_key (croadm cila : al) (nd : string) : option string :=
+  match find (fun kv => smem nd (snd kv)) croadm with
+  | Some kv => Some (fst kv)
+  | None => option_map fst (find (fun kv => existsb (fun e => contains e nd) (snd kv)) cila)
+  end.
+Definition next_step (g : graph) (croadm : al) (st : res (al * list (string * string) * list string)) (key elem : string)
+  : res (al * list (string * string) * list string) :=
+  let* s := st in
+  let '(cila, nn, temp) := s in
+  match first_containing elem g with
+  | None => Err "StopIteration:no_node_contains_name"
+  | Some cname =>
+      let temp' := remove_first elem temp ++ [cname] in
+      match succ1 g cname with
+      | None => Err "StopIteration:successors"
+      | Some v =>
+          let* nd := skip_line (length (g_nodes g)) g v in
+          (* the roadm lookup always (re)assigns; the ila lookup only when the name has no entry yet *)
+          match find (fun kv => smem nd (snd kv)) croadm with
+          | Some kv => Ok (cila, (cname, fst kv) :: nn, temp')
+          | None =>
+              match assoc cname nn with
+              | Some _ => Ok (cila, nn, temp')
+              | None =>
+                  match find (fun kv => existsb (fun e => contains e nd) (snd kv)) cila with
+                  | Some kv => Ok (cila, (cname, fst kv) :: nn, temp')
+                  | None => Ok (cila, nn, temp')
+                  end
+              end
+          end
+      end
+  end.
+Definition corresp_next_node (g : graph) (croadm cila0 : al) : res (al * list (string * string)) :=
+  fold_left (fun st key =>
+               let* s := st in
+               let '(cila, nn) := s in
+               let lst := odef [] (al_get key cila) in
+               let* r := fold_left (fun a elem => next_step g croadm a key elem) lst (Ok (cila, nn, lst)) in
+               let '(cila', nn', temp) := r in
+               Ok (al_set key temp cila', nn'))
+            (map fst cila0) (Ok (cila0, [])).
+
+(* find_node_sugestion *)
+Definition suggestions (g : graph) (croadm cfused cila : al) (n : string) : list string :=
+  if smem n (uids_of_kind KRoadm g ++ uids_of_kind KEdfa g) then [n]
+  else match al_get n croadm with
+       | Some v => v
+       | None => match al_get n cfused with
+                 | Some v => v ++ odef [] (al_get n cila)
+                 | None => odef [] (al_get n cila)
+                 end
+       end.
+
+(* what happens to the hop at position i of the (popped) route list *)
+Inductive action := AKeep | ARename (s : string) | ADrop | AFail (e : string).
+Definition decide (g : graph) (croadm cfused cila : al) (nn : list (string * string)) (loose : bool)
+                  (dst : string) (route : list string) (i : nat) (n : string) : action :=
+  if smem n (uids_of_kind KTrx g ++ uids_of_kind KFiber g)
+  then (if loose then ADrop else AFail "ServiceError:trx_or_fiber_in_strict_route")
+  else
+    match suggestions g croadm cfused cila n with
+    | [] => if loose then ADrop else AFail "ServiceError:unknown_node_in_strict_route"
+    | [x] => if seqb x n then AKeep else ARename x
+    | sg =>
+        (* several candidates: the one whose downstream neighbour is named later in the list (or is the destination)
+           and not earlier; none -> the hop is skipped, whatever the strictness *)
+        match find (fun s => match assoc s nn with
+                             | Some c => smem c (skipn i route ++ [dst]) && negb (smem c (firstn i route))
+                             | None => false
+                             end) sg with
+        | Some x => if seqb x n then AKeep else ARename x
+        | None => ADrop
+        end
+    end.
+
 Fixpoint replace_first (x y : string) (l : list string) : list string :=
   match l with [] => [] | z :: t => if seqb z x then y :: t else z :: replace_first x y t end.
 Fixpoint last_s (l : list string) : option string :=
@@ -470,41 +671,167 @@ Definition pop_ends (src dst : string) (l : list string) : list string :=
   | Some y => if seqb dst y then removelast l1 else l1
   | None => l1
   end.
-(* the loop runs over a copy (temp) taken after the pops; removals / replacements act on the first occurrence in
-   the live list *)
-Fixpoint correct_loop (declared roadm_uids trxfiber : list string) (loose : bool) (temp live : list string)
-  : res (list string) :=
+(* the loop runs over a copy (temp) taken after the pops; every removal / replacement acts on the FIRST occurrence
+   of the hop's name in the live list (list.remove / list.index) *)
+Fixpoint surgery (dec : nat -> string -> action) (i : nat) (temp live : list string) : res (list string) :=
   match temp with
   | [] => Ok live
   | n :: t =>
-      match classify declared roadm_uids trxfiber n with
-      | NExact => correct_loop declared roadm_uids trxfiber loose t live
-      | NCity => correct_loop declared roadm_uids trxfiber loose t (replace_first n ("roadm " +s n) live)
-      | NTrxFiber => if loose then correct_loop declared roadm_uids trxfiber loose t (remove_first n live)
-                     else Err "ServiceError:trx_or_fiber_in_strict_route"
-      | NUnknown => if loose then correct_loop declared roadm_uids trxfiber loose t (remove_first n live)
-                    else Err "ServiceError:unknown_node_in_strict_route"
+      match dec i n with
+      | AKeep => surgery dec (S i) t live
+      | ARename s => surgery dec (S i) t (replace_first n s live)
+      | ADrop => surgery dec (S i) t (remove_first n live)
+      | AFail e => Err e
       end
   end.
-Definition correct_route (declared roadm_uids trxfiber trx_uids : list string) (r : request) : res request :=
-  if negb (smem (r_src r) trx_uids) then Err "ServiceError:source"
-  else if negb (smem (r_dst r) trx_uids) then Err "ServiceError:destination"
+
+Record corresp := mkCorresp { k_graph : graph; k_roadm : al; k_fused : al; k_ila : al; k_next : list (string * string) }.
+Definition build_corresp (w : rows) (n : net) : res corresp :=
+  let g := graph_of n in
+  let cr := corresp_roadm w in
+  let cf := corresp_fused w g in
+  let* r := corresp_next_node g cr (corresp_ila w g cf) in
+  Ok (mkCorresp g cr cf (fst r) (snd r)).
+Definition correct_route (k : corresp) (r : request) : res request :=
+  let trx := uids_of_kind KTrx (k_graph k) in
+  if negb (smem (r_src r) trx) then Err "ServiceError:source"
+  else if negb (smem (r_dst r) trx) then Err "ServiceError:destination"
   else
     let l := pop_ends (r_src r) (r_dst r) (r_nodes r) in
-    let* l' := correct_loop declared roadm_uids trxfiber (r_loose r) l l in
+    let* l' := surgery (decide (k_graph k) (k_roadm k) (k_fused k) (k_ila k) (k_next k) (r_loose r) (r_dst r) l) 0 l l in
     Ok (mkReq (r_id r) (r_src r) (r_dst r) (r_bidir r) (r_trx r) (r_mode r) (r_spacing_hz r) (r_power_dbm r)
               (r_nbch r) (r_disj r) l' (r_loose r) (r_bw_bps r)).
 
 (* read_service_sheet on the network converted from the same workbook (before auto-design) *)
-Definition is_roadm_el (e : element) : bool := match el_c e with CRoadm _ _ _ => true | _ => false end.
-Definition is_trx_el (e : element) : bool := match el_c e with CTrx => true | _ => false end.
-Definition is_fiber_el (e : element) : bool := match el_c e with CFiber _ _ _ _ _ _ => true | _ => false end.
-Definition uids_where (p : element -> bool) (n : net) : list string :=
-  map (fun e => render (el_uid e)) (filter p (elements n)).
-Definition declared_roadm (w : rows) : list string :=
-  map nr_city (filter (fun r => ntype_eqb (norm_type (nr_type r)) TRoadm) (w_nodes w)).
 Definition read_service_sheet (w : rows) (n : net) (equipment : list (string * list string)) (bidir : bool)
                               (rs : list req_row) : res (list request) :=
   let* reqs := mapM (request_element equipment bidir) rs in
-  mapM (correct_route (declared_roadm w) (uids_where is_roadm_el n)
-                      (uids_where (fun e => is_trx_el e || is_fiber_el e) n) (uids_where is_trx_el n)) reqs.
+  let* k := build_corresp w n in
+  mapM (correct_route k) reqs.
+
+(* ================================================================== header recognition =====
+   convert.read_header / read_slice / parse_headers / parse_row (262-364): which column of a sheet is read as which
+   field.  A sheet is a grid of cells (row-major; cells beyond the end of a row are empty). *)
+Definition grid : Type := list (list cell).
+(* row[a:b] of line `line`; [] when the line does not exist *)
+Definition row_slice (g : grid) (line a b : nat) : list cell := firstn (b - a) (skipn a (nth line g [])).
+(* cell.value.strip() if cell.value else '' ; a non-zero number has no .strip(): AttributeError *)
+Definition header_text (c : cell) : option string :=
+  match c with
+  | CEmpty => Some EmptyString
+  | CStr s => Some (strip s)
+  | CNum q => if Qeq_bool q 0 then Some EmptyString else None
+  end.
+Fixpoint all_some {A} (l : list (option A)) : option (list A) :=
+  match l with
+  | [] => Some []
+  | Some x :: t => option_map (cons x) (all_some t)
+  | None :: _ => None
+  end.
+Fixpoint number_from {A} (k : nat) (l : list A) : list (A * nat) :=
+  match l with [] => [] | x :: t => (x, k) :: number_from (S k) t end.
+Fixpoint last_col (l : list (string * nat)) : option nat :=
+  match l with [] => None | [x] => Some (snd x) | _ :: t => last_col t end.
+(* read_header: the non-empty headers of a line with their columns, closed by a sentinel at the end of the slice;
+   any exception while reading the line gives no header at all *)
+Definition read_header (g : grid) (line a b : nat) : list (string * nat) :=
+  match all_some (map header_text (row_slice g line a b)) with
+  | None => []
+  | Some hs =>
+      let hi := filter (fun p => negb (seqb (fst p) "")) (number_from a hs) in
+      match last_col hi with
+      | None => []
+      | Some c => if Nat.eqb c b then hi else hi ++ [(EmptyString, b)]
+      end
+  end.
+(* read_slice: the first header CONTAINING the label, with the column of the next header *)
+Fixpoint first_match (label : string) (hi : list (string * nat)) : option (nat * nat) :=
+  match hi with
+  | [] => None
+  | (h, c) :: t => if contains label h
+                   then match t with (_, c') :: _ => Some (c, c') | [] => None end   (* [] : IndexError, unreachable *)
+                   else first_match label t
+  end.
+Definition read_slice (g : grid) (line a b : nat) (label : string) : option (nat * nat) :=
+  first_match label (read_header g line a b).
+(* the label is looked for on the given line and, failing that, on the nine following ones *)
+Fixpoint find_label (g : grid) (line a b : nat) (label : string) (tries : nat) : option (nat * nat) :=
+  match tries with
+  | O => None
+  | S k => match read_slice g line a b label with
+           | Some r => Some r
+           | None => find_label g (S line) a b label k
+           end
+  end.
+(* headers[col] = field on an insertion-ordered dict *)
+Fixpoint hd_set (c : nat) (f : string) (l : list (nat * string)) : list (nat * string) :=
+  match l with
+  | [] => [(c, f)]
+  | (c', f') :: t => if Nat.eqb c' c then (c', f) :: t else (c', f') :: hd_set c f t
+  end.
+Definition mandatory (label : string) : bool :=
+  seqb label "east" || seqb label "Node A" || seqb label "Node Z" || seqb label "City".
+Definition flat_dict : Type := list (string * string).                       (* label -> field *)
+Definition hdict : Type := list (string * (string + flat_dict)).              (* label -> field | group of labels *)
+Definition no_header_error : string := "NetworkTopologyError:no_header".
+Fixpoint parse_flat (g : grid) (d : flat_dict) (hd : list (nat * string)) (line a b : nat) : res (list (nat * string)) :=
+  match d with
+  | [] => match hd with [] => Err no_header_error | _ => Ok hd end
+  | (label, field) :: t =>
+      match find_label g line a b label 10 with
+      | Some (c, _) => parse_flat g t (hd_set c field hd) line a b
+      | None => if mandatory label then Err "NetworkTopologyError:missing_header" else parse_flat g t hd line a b
+      end
+  end.
+Fixpoint parse_headers (g : grid) (d : hdict) (hd : list (nat * string)) (line a b : nat) : res (list (nat * string)) :=
+  match d with
+  | [] => match hd with [] => Err no_header_error | _ => Ok hd end
+  | (label, v) :: t =>
+      match find_label g line a b label 10 with
+      | Some (c, c') =>
+          match v with
+          | inl field => parse_headers g t (hd_set c field hd) line a b
+          | inr sub => let* hd' := parse_flat g sub hd (S line) c c' in parse_headers g t hd' line a b
+          end
+      | None => if mandatory label then Err "NetworkTopologyError:missing_header" else parse_headers g t hd line a b
+      end
+  end.
+(* parse_row: field -> cell; when two columns carry the same field the later one (in insertion order) wins *)
+Definition parse_row (row : list cell) (hd : list (nat * string)) (field : string) : cell :=
+  fold_left (fun acc p => if seqb (snd p) field then nth (fst p) row CEmpty else acc) hd CEmpty.
+(* parse_sheet: the data rows (first cell not empty) from `start` on *)
+Definition is_empty_cell (c : cell) : bool := match c with CEmpty => true | CStr s => seqb s "" | CNum _ => false end.
+Definition data_rows (g : grid) (start ncol : nat) : list (list cell) :=
+  map (firstn ncol) (filter (fun r => negb (is_empty_cell (nth 0 r CEmpty))) (skipn start g)).
+
+(* the dictionaries of parse_excel / parse_service_sheet *)
+Definition side_dict (p : string) : flat_dict :=
+  [("Distance (km)", p +s "_distance"); ("Fiber type", p +s "_fiber"); ("lineic att", p +s "_lineic");
+   ("Con_in", p +s "_con_in"); ("Con_out", p +s "_con_out"); ("PMD", p +s "_pmd"); ("Cable id", p +s "_cable")]%string.
+Definition link_headers : hdict :=
+  [("Node A", inl "from_city"); ("Node Z", inl "to_city"); ("east", inr (side_dict "east")); ("west", inr (side_dict "west"))]%string.
+Definition node_headers : hdict :=
+  [("City", inl "city"); ("State", inl "state"); ("Country", inl "country"); ("Region", inl "region");
+   ("Latitude", inl "latitude"); ("Longitude", inl "longitude"); ("Type", inl "node_type");
+   ("Booster_restriction", inl "booster_restriction"); ("Preamp_restriction", inl "preamp_restriction")]%string.
+Definition amp_dict (p : string) : flat_dict :=
+  [("amp type", p +s "_amp_type"); ("amp gain", p +s "_amp_gain"); ("delta p", p +s "_amp_dp");
+   ("tilt", p +s "_tilt_vs_wavelength"); ("att_out", p +s "_att_out"); ("att_in", p +s "_att_in")]%string.
+Definition eqpt_headers : hdict :=
+  [("Node A", inl "from_city"); ("Node Z", inl "to_city"); ("east", inr (amp_dict "east")); ("west", inr (amp_dict "west"))]%string.
+Definition roadm_headers : hdict :=
+  [("Node A", inl "from_node"); ("Node Z", inl "to_node"); ("per degree target power (dBm)", inl "target_pch_out_db");
+   ("type_variety", inl "type_variety"); ("from degrees", inl "from_degrees");
+   ("from degree to degree impairment id", inl "impairment_ids")]%string.
+Definition service_headers : hdict :=
+  [("route id", inl "request_id"); ("Source", inl "source"); ("Destination", inl "destination");
+   ("TRX type", inl "trx_type"); ("Mode", inl "mode"); ("System: spacing", inl "spacing");
+   ("System: input power (dBm)", inl "power"); ("System: nb of channels", inl "nb_channel");
+   ("routing: disjoint from", inl "disjoint_from"); ("routing: path", inl "nodes_list");
+   ("routing: is loose?", inl "is_loose"); ("path bandwidth", inl "path_bandwidth")]%string.
+(* (header line, first data line, number of columns) *)
+Definition nodes_layout := (4, 5, 10)%nat.
+Definition links_layout := (3, 5, 16)%nat.
+Definition eqpts_layout := (3, 5, 14)%nat.
+Definition roadms_layout := (3, 5, 6)%nat.
+Definition service_layout := (4, 5, 12)%nat.
